@@ -12,3 +12,5 @@ open Verif.Props.C09
 #print axioms css_url_closed
 #print axioms css_string_closed_partial
 #print axioms css_string_closed_counterexample
+#print axioms css_raw_retokenises
+#print axioms css_raw_retokenises_counterexample
